@@ -1170,3 +1170,73 @@ def _ag_vector(cx, rng, edges, n, D, Dmax, base, tol, dtype, how):
                     return f"dense tensor changed by {d / sc2:.2e} (relative)"
 
             cx.check("tensor_network_ag_compress: one tensor per site, untruncated keeps the dense tensor, capped obeys the cap", p, t_ag)
+
+
+def _tn3d_periodic_in(rng, L, D, axis, dtype="float64"):
+    """random 3D lattice, periodic in exactly one direction, built from raw numpy arrays (no quimb generator)"""
+    import quimb.tensor as qtn
+
+    ts = []
+    for c in itertools.product(*[range(n) for n in L]):
+        inds = []
+        for a in range(3):
+            lo = list(c)
+            lo[a] = (c[a] - 1) % L[a]
+            if a == axis or c[a] > 0:
+                inds.append("b%d_%d,%d,%d" % ((a,) + tuple(lo)))
+            if a == axis or c[a] < L[a] - 1:
+                inds.append("b%d_%d,%d,%d" % ((a,) + c))
+        data = rng.uniform(0.3, 1.0, size=(D,) * len(inds))
+        if dtype.startswith("complex"):
+            data = data * np.exp(0.3j * rng.normal(size=data.shape))
+        ts.append(qtn.Tensor(data.astype(dtype), tuple(inds), tags=("I%d,%d,%d" % c, "X%d" % c[0], "Y%d" % c[1], "Z%d" % c[2])))
+    return qtn.TensorNetwork(ts).view_as_(qtn.TensorNetwork3D, site_tag_id="I{},{},{}", x_tag_id="X{}", y_tag_id="Y{}", z_tag_id="Z{}",
+                                          Lx=L[0], Ly=L[1], Lz=L[2])
+
+
+@driver("C12", "periodic-one-direction-3d", chunks=2, timeout=300,
+        bound="3x3x3 lattices with bond 2, periodic in exactly one of x / y / z (built from raw numpy arrays), one boundary step "
+              "contract_boundary_from from each of the 4 sides across the periodic direction with mode='projector3d' and cap 3: every pair of tensors of the "
+              "handed-over network is joined by at most the cap; the untruncated full contraction from that side == exact "
+              "(double precision, real and complex); combinations the library rejects are counted as rejections")
+def periodic_one_direction_3d(cx):
+    quiet_env()
+    rng = cx.rng
+    L, D, cap = (3, 3, 3), 2, 3
+    for axis, dtype in itertools.product(range(3), ("float64", "complex128")):
+        if cx.quick and dtype == "complex128" and axis != 0:
+            continue
+        tn = _tn3d_periodic_in(rng, L, D, axis, dtype)
+        ex = None
+        for fw in ("xmin", "xmax", "ymin", "ymax", "zmin", "zmax"):
+            if not cx.mine():
+                continue
+            if cx.out_of_time():
+                cx.inconclusive.append("periodic-one-direction-3d: time budget exhausted")
+                return
+            if "xyz"[axis] == fw[0]:
+                # sweeping ALONG the periodic direction: the merged plane is joined to the next one by the forward and the
+                # wrap-around bond together -- bonds the scheme never compresses, so the cap says nothing about them
+                continue
+            p = dict(L=list(L), D=D, periodic_axis="xyz"[axis], from_which=fw, cap=cap, dtype=dtype)
+            rg = (0, 1) if fw.endswith("min") else (L["xyz".index(fw[0])] - 2, L["xyz".index(fw[0])] - 1)
+
+            def t_cap(fw=fw, rg=rg, tn=tn):
+                ranges = dict(xrange=None, yrange=None, zrange=None)
+                ranges[fw[0] + "range"] = rg
+                r = tn.contract_boundary_from(from_which=fw, max_bond=cap, cutoff=0.0, mode="projector3d", **ranges)
+                m = max_pair_bond(r)
+                if m > cap:
+                    return f"two tensors of the handed-over network are joined by a bond of total size {m} > cap {cap}"
+
+            cx.check("contract_boundary_from (3D, projector3d) on a lattice periodic in one direction: every handed-over bond within the cap",
+                     p, t_cap, allow_reject=True)
+            if ex is None:
+                ex = value_of(tn)
+
+            def t_exact(fw=fw, tn=tn, ex=ex):
+                r = tn.contract_boundary(max_bond=CHI, cutoff=0.0, mode="projector3d", sequence=(fw,), optimize="greedy")
+                return cmp_value(as_value(r), ex, tol_of(dtype, 10))
+
+            cx.check("contract_boundary (3D, projector3d) on a lattice periodic in one direction, untruncated == exact contraction",
+                     dict(p, cap=None), t_exact, allow_reject=True)
